@@ -49,10 +49,9 @@ Record unit_ := mkUnit {
   u_batch : bool;
   u_notes : nat;             (* runnable notifications: argument of waitForBarrier *)
   u_chok : bool;             (* channel captured at dequeue was non-nil *)
-  u_first : nat; u_len : nat;(* its tasks are positions u_first .. u_first+u_len-1 *)
   u_st : ust
 }.
-#[export] Instance eta_unit : Settable _ := settable! mkUnit <u_batch; u_notes; u_chok; u_first; u_len; u_st>.
+#[export] Instance eta_unit : Settable _ := settable! mkUnit <u_batch; u_notes; u_chok; u_st>.
 
 Inductive why := WCancel | WDeadline.
 Inductive wpc := WBlocked | WParked | WDone.
@@ -231,7 +230,8 @@ Fixpoint responses (ts : list task) : list rsp :=
   | t :: r => match response_of t with Some x => x :: responses r | None => responses r end
   end.
 
-Definition unit_tasks (s : state) (u : unit_) : list task := firstn (u_len u) (skipn (u_first u) (tasks s)).
+(* the tasks of dispatch unit number i, in request order *)
+Definition unit_tasks (s : state) (i : nat) : list task := filter (fun t => t_unit t =? i) (tasks s).
 Definition finished (t : task) : bool := match t_st t with TSkip | TDone _ => true | _ => false end.
 
 (** * semaphore *)
@@ -298,7 +298,7 @@ Definition stop_locked (c : stopcause) (s : state) : state * list obs :=
 Definition is_nil_list {A} (l : list A) : bool := match l with [] => true | _ => false end.
 Definition set_unit (i : nat) (f : unit_ -> unit_) (s : state) : state := s <| units ::= upd_nth i f |>.
 Definition set_task (k : nat) (f : task -> task) (s : state) : state := s <| tasks ::= upd_nth k f |>.
-Definition all_finished (s : state) (u : unit_) : bool := forallb finished (unit_tasks s u).
+Definition all_finished (s : state) (i : nat) : bool := forallb finished (unit_tasks s i).
 
 (* the dispatcher's nextRequest critical section (after the lock is taken) *)
 Definition dequeue (s : state) : state :=
@@ -311,7 +311,7 @@ Definition dequeue (s : state) : state :=
       let notes := length (filter (fun t => runnable t && is_note t) ts) in
       s <| inq := q |>
         <| used := reserve (length (tasks s)) ts (used s) |>
-        <| units ::= fun us => us ++ [mkUnit batch notes (running s) (length (tasks s)) (length ts) UAtBarrier] |>
+        <| units ::= fun us => us ++ [mkUnit batch notes (running s) UAtBarrier] |>
         <| tasks ::= fun l => l ++ ts |>
         <| dp := DAtBarrier u |>
   end.
@@ -319,8 +319,11 @@ Definition dequeue (s : state) : state :=
 Fixpoint find_idx {A} (p : A -> bool) (i : nat) (l : list A) : option nat :=
   match l with [] => None | x :: r => if p x then Some i else find_idx p (S i) r end.
 
-Definition unit_complete (s : state) (u : unit_) : bool :=
-  match u_st u with URunning => all_finished s u | _ => false end.
+Definition unit_complete (s : state) (i : nat) (u : unit_) : bool :=
+  match u_st u with URunning => all_finished s i | _ => false end.
+
+Fixpoint find_unit (p : nat -> unit_ -> bool) (i : nat) (l : list unit_) : option nat :=
+  match l with [] => None | x :: r => if p i x then Some i else find_unit p (S i) r end.
 
 Definition settle1 (s : state) : option (state * list obs) :=
   match rd s, ch_in s with
@@ -340,11 +343,11 @@ Definition settle1 (s : state) : option (state * list obs) :=
          end) with
   | Some r => Some r
   | None =>
-  match find_idx (unit_complete s) 0 (units s) with
+  match find_unit (unit_complete s) 0 (units s) with
   | Some i =>
       match nth_error (units s) i with
       | Some un =>
-          if is_nil_list (responses (unit_tasks s un))
+          if is_nil_list (responses (unit_tasks s i))
           then Some (set_unit i (fun x => x <| u_st := UFinished |>) s <| wg ::= pred |>, [])
           else Some (set_unit i (fun x => x <| u_st := UAtDeliver |>) s, [])
       | None => None
@@ -540,7 +543,7 @@ Definition step_raw (s : state) (l : label) : option (state * list obs) :=
       | Some un =>
           match u_st un with
           | UAtDeliver =>
-              let ts := unit_tasks s un in
+              let ts := unit_tasks s u in
               let rs := responses ts in
               let s1 := release_ids ts s in
               if negb (u_chok un)
